@@ -21,13 +21,14 @@ def configs(tier):
     deg = 1 if tier == "quick" else 2
     B = 2 if tier == "quick" else 3
     out = [dict(kind=k, deg=deg, B=B) for k in ("ode", "statio", "nonstatio")]
+    out += [dict(kind=k, deg=1, B=2, pbatch=True) for k in ("ode", "statio", "nonstatio")]      # the batch carries per-sample values of kappa
     out += [dict(kind=k, deg=1, B=2, inctor=True) for k in ("ode", "statio", "nonstatio")]
     out += [dict(kind=k, part="static") for k in ("ode", "statio", "nonstatio")]
     out.append(dict(kind="system_ode", deg=1, B=2))
     return out
 
 
-def build(kind, deg, B, masks="array", dk=None, mask_vals=None):
+def build(kind, deg, B, masks="array", dk=None, mask_vals=None, pbatch=False):
     """mask_vals: {term: (m_nn, m_theta, m_kappa)} (arrays, possibly tracers) -> the derivative keys are built from them with the
     eq_params dict in the user's (non-alphabetical: theta before kappa) insertion order"""
     import jinns
@@ -85,6 +86,12 @@ def build(kind, deg, B, masks="array", dk=None, mask_vals=None):
                                   times_x_border_batch=jnp.array([[[0.3, 0.3], [0.0, 1.0]]]), obs_batch_dict=obs)
     if masks == "array" and mask_vals is None:
         loss = eqx.tree_at(lambda l: l.derivative_keys, loss, jax.tree.map(lambda b: jnp.asarray(b), loss.derivative_keys))
+    if pbatch:
+        batch = eqx.tree_at(lambda b: b.param_batch_dict, batch, {"kappa": jnp.arange(1, B + 1).reshape(B, 1) * 0.3}, is_leaf=lambda x: x is None)
+        if kind == "statio":        # one border row per parameter row
+            batch = eqx.tree_at(lambda b: b.border_batch, batch, jnp.tile(batch.border_batch, (B, 1, 1)))
+        elif kind == "nonstatio":
+            batch = eqx.tree_at(lambda b: b.times_x_border_batch, batch, jnp.tile(batch.times_x_border_batch, (B, 1, 1)))
     return loss, params, batch, terms
 
 
@@ -94,8 +101,9 @@ def run(cfg, R):
     if kind == "system_ode": return run_system(cfg, R)
     deg, B = cfg["deg"], cfg["B"]
     if cfg.get("inctor"): return run_inctor(cfg, R)
-    loss, params, batch, terms = build(kind, deg, B, masks="array")
-    loss_true0, _, _, _ = build(kind, deg, B, masks="python")
+    pbatch = cfg.get("pbatch", False)
+    loss, params, batch, terms = build(kind, deg, B, masks="array", pbatch=pbatch)
+    loss_true0, _, _, _ = build(kind, deg, B, masks="python", pbatch=pbatch)
     dk_true = loss_true0.derivative_keys          # python-bool all-True masks; every other leaf is shared with `loss`
     groups = ("nn_params", "theta", "kappa")
     R.note(functions=["jax.grad of jinns.loss.%s.evaluate" % {"ode": "LossODE", "statio": "LossPDEStatio", "nonstatio": "LossPDENonStatio"}[kind],
@@ -110,7 +118,7 @@ def run(cfg, R):
         gterm_masked = {t: jax.grad(lambda p: loss.evaluate(p, batch)[1][t])(params) for t in terms}
         return gtot, val, val_true, gterm_true, gterm_masked
 
-    name = f"{kind}/deg{deg}/B{B}"
+    name = f"{kind}/deg{deg}/B{B}" + ("/param-batch" if pbatch else "")
     tr = R.trace(name, f, (loss, params, batch), key=f"{kind}:raises")
     if tr is None: return
 
@@ -221,6 +229,20 @@ def run_static(cfg, R):
     d2 = cls.from_str(params)
     ok2 = all(getattr(d2, t).nn_params is True and all(v is False for v in getattr(d2, t).eq_params.values()) for t in terms)
     if not ok2: R._record_violation(f"{kind}:default-from_str", prog, "default", {}, note="from_str defaults are not nn_params-only")
+    # partial specification: every subset of the terms given a NON-default mask (tree form + params=, and string form), the others left out --
+    # each omitted term gets its OWN default (network parameters only), each given term keeps what it was given
+    nondefault = Params(nn_params=False, eq_params={"theta": True, "kappa": False})
+    is_default = lambda m: m.nn_params is True and all(v is False for v in m.eq_params.values())
+    is_given = lambda m: m.nn_params is False and m.eq_params["theta"] is True and m.eq_params["kappa"] is False
+    for r in range(1, len(terms)):
+        for given in itertools.combinations(terms, r):
+            d3 = cls(params=params, **{t: nondefault for t in given})
+            ok3 = all((is_given(getattr(d3, t)) if t in given else is_default(getattr(d3, t))) for t in terms)
+            R.records.append(dict(prog=prog, goal=f"only {given} specified: omitted terms default to nn_params only", verdict="structural" if ok3 else "sat", phase="static", ms=0.0))
+            if not ok3: R._record_violation(f"{kind}:partial-default", prog, "default", {}, note=f"given={given}: " + str({t: (getattr(d3, t).nn_params, dict(getattr(d3, t).eq_params)) for t in terms}))
+            d4 = cls.from_str(params, **{t: "eq_params" for t in given})
+            ok4 = all(((getattr(d4, t).nn_params is False and all(v is True for v in getattr(d4, t).eq_params.values())) if t in given else is_default(getattr(d4, t))) for t in terms)
+            if not ok4: R._record_violation(f"{kind}:partial-default-from_str", prog, "default", {}, note=f"given={given}")
     if replaying:
         R.replay_result = dict(reproduced=bool(R.violations), note="; ".join(v["note"] for v in R.violations[:3]))
 
